@@ -328,6 +328,20 @@ def strip_mode(ans: str) -> str:
     return ans
 
 
+def _with_alarm(fn, seconds):
+    import signal
+
+    def boom(*a):
+        raise TimeoutError(f"did not finish within {seconds} s")
+    old = signal.signal(signal.SIGALRM, boom)
+    signal.setitimer(signal.ITIMER_REAL, seconds)
+    try:
+        return fn()
+    finally:
+        signal.setitimer(signal.ITIMER_REAL, 0)
+        signal.signal(signal.SIGALRM, old)
+
+
 # ============================================================================================
 # C01 — round trip
 # ============================================================================================
@@ -350,7 +364,7 @@ def run_c01(ctx: Ctx):
                     ro = genlib.render(obj)
                     reader = case.run.EoReader(data)
                     try:
-                        back = cls.deserialize(reader)
+                        back = _with_alarm(lambda: cls.deserialize(reader), 2.0)
                     except Exception as ex:  # noqa: BLE001
                         fails(ctx, case, f"{cname}: deserialising its own serialisation {common.tohex(data)} raised {type(ex).__name__}: {ex}",
                               {"class": cname, "object": ro, "bytes": common.tohex(data)})
@@ -667,8 +681,8 @@ def run_c19(ctx: Ctx):
                     if first.startswith("ok"):
                         data = bytes.fromhex(first.split()[1]) if first.split()[1] != "-" else b""
                         try:
-                            back = cls.deserialize(case.run.EoReader(data))
-                        except Exception:  # noqa: BLE001
+                            back, _ = genlib.de_obj(cls, data, False, timeout=0.5)
+                        except BaseException:  # noqa: BLE001 - incl. the time limit (hostile-looking lengths)
                             continue
                         a, b = genlib.do_ser(cls, back, False), genlib.do_ser(cls, back, False)
                         if a != b:
